@@ -718,6 +718,11 @@ class Interp:
             return obj.get(name)
         if isinstance(obj, SliceVal):
             return {"start": obj.lo, "stop": obj.hi, "step": obj.step}[name]
+        if isinstance(obj, FuncVal) and name == "dispatch":
+            # functools.singledispatch (decorator dropped): dispatch(cls) of the generic function is the
+            # base implementation unless the contract registers another one in `self.dispatch_table`
+            table = getattr(self, "dispatch_table", {})
+            return BuiltinVal("dispatch", lambda it, a, k: table.get((obj.qualname, getattr(a[0], "name", None)), obj))
         m = self.bm.get_method(self, obj, name)
         if m is not None:
             return m
